@@ -424,6 +424,20 @@ macro_rules! site {
                         });
                         None
                     }
+                    QMacro::IterDestroyUnit => {
+                        // closure returning `()`: From<()> for EcsStepDestroy (always Continue)
+                        ecs_iter_destroy!($w, |$($params)*| {
+                            let _ = hook.visit(Visit { world: None, other: $other, ent: $ent, dir: $dir, cols: &mut [$($cols),*] });
+                        });
+                        None
+                    }
+                    QMacro::IterDestroyStep => {
+                        // closure returning EcsStep: From<EcsStep> for EcsStepDestroy
+                        ecs_iter_destroy!($w, |$($params)*| {
+                            hook.visit(Visit { world: None, other: $other, ent: $ent, dir: $dir, cols: &mut [$($cols),*] }).iter()
+                        });
+                        None
+                    }
                     QMacro::Find => match key.expect("sim: find needs a key") {
                         Key::A(k) => ecs_find!($w, k, |$($params)*| {
                             hook.visit(Visit { world: None, other: $other, ent: $ent, dir: $dir, cols: &mut [$($cols),*] })
